@@ -389,7 +389,7 @@ impl Property for C08 {
     fn assumptions(&self) -> Vec<String> {
         vec![
             "sequentially consistent interleavings of the atomic operations; Relaxed reorderings beyond per-location coherence are not explored".into(),
-            "fetch_update is treated as one atomic read-modify-write".into(),
+            "fetch_update is modelled the way std implements it: a load and a compare-exchange loop, each a scheduling point (its closure may run more than once)".into(),
         ]
     }
 }
